@@ -53,6 +53,21 @@ CHECKS.update({
         text="C19_ordinary_rows_unchanged / C19_members_once / C19_walk hold for every tree and listing; the member-loop gate is regenerated from searcher.rs. The binary is run on trees with archives written by Python zipfile (all file types and modes, dates in every month, mixed-case extensions, corrupt and truncated archives) and compared with the model row for row and with the stored member attributes.",
         note="Partial: the zip crate's parser is not modelled; the listing of a readable archive is an input. Trusted: Python zipfile as the oracle of what was stored.",
         design="6 C19"),
+    "C02": dict(
+        technique="Coq statements over the typed comparison tables regenerated from Searcher::conforms + differential test of atomic WHERE conditions against lstat attributes and against those tables",
+        text="The Int / Bool / DateTime comparison tables are re-extracted from the source on every run and pinned by theorems (C02_int_table, C02_bool_table, C02_bool_words, C02_between_inclusive); every generated atomic condition (all spellings of the eight comparison operators, unit literals, boolean words, BETWEEN, column-vs-column) is run on the binary and compared with the comparison evaluated on the entry's lstat attributes and with the regenerated tables.",
+        note="Partial: Variant coercions (to_int fallbacks) are exercised by the differential test only; negative literals (F43), quoted literals spelling a column/function name (F44) and the empty literal (F45) are recorded findings outside the generated domain. Pattern operators are C12's, dates C13's.",
+        design="6 C02"),
+    "C03": dict(
+        technique="Coq proof that negation (operator table regenerated from operators.rs + AND/OR swap) is the complement on every condition tree over well-typed atoms, De Morgan and double negation + bounded-exhaustive differential test of result sets",
+        text="C03_not_is_complement, C03_double_negation, C03_de_morgan_*, C03_between_inclusive / C03_not_between_complement are proved over Op_negate and the comparison tables as regenerated from the source. Every formula shape up to a size bound over three atoms (and random deeper ones) is run on the binary; its result set must equal the Boolean combination of its atoms' own result sets.",
+        note="The step from condition trees to the parser's Expr trees (precedence, brackets, prefix-not parity, BETWEEN desugaring) is covered by the differential test here and by the parser model; atoms' own meaning is C02's subject.",
+        design="6 C03"),
+    "C20": dict(
+        technique="Coq proof that, for an arbitrary per-entry ignore verdict, the walker returns exactly the entries with no ignored ancestor-or-self + differential test against `git check-ignore` over root spellings and option/config/no-override",
+        text="C20_pruning_spec / C20_pruning_walk hold for every tree and every verdict function over model/Walk.v. On every run git repositories with generated .gitignore files are searched with the root spelled '.', relative, absolute or as a sub-directory, with the option given, taken from the configuration or overridden; rows must be the entries git does not ignore and must equal the model fed git's verdicts.",
+        note="Partial: libgit2's matcher is not modelled (verdicts are inputs). The hgignore / dockerignore converters deviate from Mercurial's / Docker's semantics in recorded ways (F37, F38, F41) and are not compared with reference matchers in this round.",
+        design="6 C20"),
 })
 
 ALL = ["C%02d" % i for i in range(1, 21)]
